@@ -49,12 +49,20 @@ def packet_args(rng, kind):
     return qid, v
 
 
-def segment(rng, ops, scenario, evict, length, age=False, exhaustive=False):
+def segment(rng, ops, scenario, evict, length, age=False, exhaustive=False, aged_forgeries=False):
     ops.append(f"init {evict} {scenario}")
     n = 0 if scenario == "-" else len(scenario.split(","))
     if age:
         ops.append("age")
     ops.append("state")
+    if aged_forgeries and n:
+        # every byte of an UnknownPathSecret for an entry that could now be evicted
+        _, total = fields("ups", 5, 0)
+        for idx in range(total):
+            ops.append(f"forge ctl ups {n - 1} 5 0 x{idx}:1")
+        _, total = fields("ups", None, 0)
+        for idx in range(total):
+            ops.append(f"forge unexp ups 0 - 0 x{idx}:128")
     if exhaustive and n:
         # every byte position x {low bit, high bit, 0x00, 0xff} of a genuine packet of every kind
         for kind in KINDS:
@@ -117,11 +125,12 @@ def gen(rng, n, tier):
     ops = []
     thorough = tier == "thorough"
     first = True
-    # exhaustive single-byte forgeries against a small map
-    segment(rng, ops, "0:128,1:256", 1, 0, exhaustive=True)
+    # exhaustive single-byte forgeries against a small map (eviction off: the 10 s age guard is real
+    # time, a long segment on a loaded machine must not depend on it)
+    segment(rng, ops, "0:128,1:256", 0, 0, exhaustive=True)
     ops.append("reset")
-    # one aged segment: eviction by a genuine UnknownPathSecret becomes possible (10 s of real time)
-    segment(rng, ops, "0:128,1:256,0:256,2:128", 1, 60 if not thorough else 400, age=True)
+    # one aged segment: eviction by UnknownPathSecret becomes possible (10 s of real time)
+    segment(rng, ops, "0:128,1:256,0:256,2:128", 1, 60 if not thorough else 400, age=True, aged_forgeries=True)
     ops.append("reset")
     segs = max(4, n // 40)
     for _ in range(segs):
